@@ -17,7 +17,7 @@ EXPLANATION = (
     "decorators call the wrapped function exactly once with (*args, **kwargs) and return its result unchanged. "
     "R5: the level accessors touch only handlers named 'console' of logger 'emd'.")
 RULE_TEXT = "one obligation per wrapper exit class / guarded use / module / decorator / accessor"
-FLOORS = {'C20.R1': 2, 'C20.R2': 1, 'C20.R3': 6, 'C20.R4': 2, 'C20.R5': 2}
+FLOORS = {'C20.R1': 2, 'C20.R2': 1, 'C20.R3': 6, 'C20.R4': 2, 'C20.R5': 4}
 PINNED_EXPECT = [('C20.R1', 'emd.logger.wrap_verbose.inner_verbose', 'exceptional'),
                  ('C20.R2', 'emd.logger.wrap_verbose.inner_verbose', 'saved level')]
 
@@ -473,6 +473,20 @@ def rule_transparent_decorators(ctx, rid):
             break
 
 
+def _closure(P, q):
+    """q and every repo function reachable from it in the call graph."""
+    seen = {q}
+    todo = [q]
+    cg = P.callgraph()
+    while todo:
+        x = todo.pop()
+        for y in cg.get(x, ()):
+            if y not in seen:
+                seen.add(y)
+                todo.append(y)
+    return seen
+
+
 def rule_accessors(ctx, rid):
     P = ctx.P
     for q, action in (('emd.logger.set_level', 'setLevel'), ('emd.logger.get_level', 'level')):
@@ -502,3 +516,24 @@ def rule_accessors(ctx, rid):
         else:
             ctx.violation(rid, fi, c, "a handler's level is read/written without the name=='console' guard",
                           node=acts[0] if acts else fi.node)
+        # an accessor must not configure logging: the verbosity wrapper calls it before the logger is set up and
+        # restores nothing in that case, so a handler created here outlives the call at the override level
+        c2 = '%s does not set up or reconfigure logging' % fi.name
+        CONFIG = ('emd.logger.set_up', 'logging.config.dictConfig', 'logging.basicConfig', 'logging.config.fileConfig')
+        hit = None
+        for q2 in sorted(P.callgraph_closure(fi.qualname) if hasattr(P, 'callgraph_closure') else _closure(P, fi.qualname)):
+            g = P.funcs.get(q2)
+            if g is None:
+                continue
+            for n in P.calls_in(g):
+                d = P.resolve(g.module, n.func, g) or ''
+                ca = P.resolve_callee(g.module, g, n.func)
+                dd = ca.dotted if ca is not None and ca.dotted else d
+                if d in CONFIG or dd in CONFIG or (isinstance(n.func, ast.Attribute) and n.func.attr in ('addHandler',
+                                                                                                          'removeHandler')):
+                    hit = (g, n, dd or d or unparse(n.func))
+        if hit:
+            ctx.violation(rid, fi, c2, '%s reaches %s (in %s): a verbosity override requested before set-up creates a '
+                          'console handler that stays at the override level' % (fi.name, hit[2], hit[0].name), node=hit[1])
+        else:
+            ctx.passed(rid, fi, c2)
